@@ -96,3 +96,90 @@ def ev(n, env, methods=None):
     if k == "block" and not n.get("s") and n.get("e"):
         return ev(n["e"], env, methods)
     raise Unknown("node " + str(k))
+
+
+
+def bev(n, env):
+    """Evaluate a loop-free boolean / enum-valued expression (==, !=, &&, ||, !, if/else, match / matches! on unit variants)
+    under an environment {local or field name -> bool | int | variant name}.  Unit-variant paths evaluate to their last segment."""
+    n = C.strip(n)
+    if not isinstance(n, dict):
+        raise Unknown("not an expression")
+    k = n.get("k")
+    if k == "lit":
+        if n.get("t") == "bool":
+            return str(n["v"]).lower() == "true"
+        if n.get("t") == "int":
+            return int(n["v"])
+        raise Unknown("literal " + str(n.get("t")))
+    if k == "local":
+        if n["n"] in env:
+            return env[n["n"]]
+        raise Unknown("free variable " + n["n"])
+    if k == "field":
+        key = n["n"]
+        if key in env:
+            return env[key]
+        raise Unknown("field " + key)
+    if k == "def" or (k in ("path", "call") and n.get("ctor") and not n.get("a")):
+        return (n.get("ctor") or n.get("p") or "").split("::")[-1]
+    if k == "macro":
+        inner = n.get("inner") or n.get("e")
+        if inner is None:
+            raise Unknown("macro without expansion")
+        return bev(inner, env)
+    if k in ("block",):
+        if n.get("s"):
+            raise Unknown("block with statements")
+        return bev(n["e"], env)
+    if k in ("un", "unary"):
+        v = bev(n["e"], env)
+        if n.get("op") == "Not":
+            return not v
+        raise Unknown("unary " + str(n.get("op")))
+    if k == "bin":
+        op = n["op"]
+        if op in ("And", "Or"):
+            a = bev(n["l"], env)
+            if op == "And":
+                return bool(a) and bool(bev(n["r"], env))
+            return bool(a) or bool(bev(n["r"], env))
+        a = bev(n["l"], env)
+        b = bev(n["r"], env)
+        if op == "Eq":
+            return a == b
+        if op == "Ne":
+            return a != b
+        raise Unknown("binop " + op)
+    if k == "if":
+        c = bev(n["c"], env)
+        if c:
+            return bev(n["t"], env)
+        if n.get("e") is None:
+            raise Unknown("if without else")
+        return bev(n["e"], env)
+    if k == "match":
+        v = bev(n["s"], env)
+
+        def pm(p):
+            pk = p.get("k")
+            if pk == "wild" or pk == "bind":
+                return True
+            if pk == "or":
+                return any(pm(a) for a in p.get("alts", []))
+            if p.get("v"):
+                return p["v"].split("::")[-1] == v
+            if pk == "lit":
+                return str(p.get("v")).lower() == str(v).lower()
+            raise Unknown("pattern " + str(pk))
+        for arm in n["arms"]:
+            if pm(arm["pat"]):
+                if arm.get("g") is not None and not bev(arm["g"], env):
+                    continue
+                return bev(arm["b"], env)
+        raise Unknown("no arm matched")
+    if k == "mcall" and n.get("m") in ("clone", "to_owned", "borrow", "as_ref", "deref") and not n.get("a"):
+        return bev(n["recv"], env)
+    if k in ("addr", "deref", "paren", "cast", "use"):
+        return bev(list(C.children(n))[0], env)
+    raise Unknown("node " + str(k))
